@@ -221,6 +221,9 @@ pub fn eval(expr: Node) -> Result<f64, Box<dyn error::Error>> {
             for arg in <Vec<Node> as Clone>::clone(&args).into_iter() {
                 results.push(eval(arg)?);
             }
+            if results.iter().any(|x| x.is_nan()) {
+                return Ok(f64::NAN);
+            }
             results.sort_by(|a, b| a.total_cmp(b));
             let len = results.len();
             if len % 2 == 0 {
